@@ -282,8 +282,8 @@ large_add_from_h!(c12_large_add_from_x3, 3);
 /// result normalised.
 fn long_mul_case(lx: usize, ly: usize) {
     reset_uf();
-    let xa: [Limb; 2] = kani::any();
-    let ya: [Limb; 2] = kani::any();
+    let xa: [Limb; 3] = kani::any();
+    let ya: [Limb; 3] = kani::any();
     let mut i = 0;
     while i < lx {
         let mut j = 0;
@@ -298,7 +298,7 @@ fn long_mul_case(lx: usize, ly: usize) {
     let rx = ref_from_slice(&xa[..lx]);
     let mut acc = [0u64; W];
     let mut j = 0;
-    while j < 2 {
+    while j < 3 {
         if j < ly {
             let (row, o1) = ref_mul_limb(&rx, ya[j], uf_mul2);
             let (sh, o2) = ref_shl_limbs(&row, j);
@@ -327,6 +327,8 @@ long_mul_h!(c12_long_mul_1x1, 1, 1);
 long_mul_h!(c12_long_mul_1x2, 1, 2);
 long_mul_h!(c12_long_mul_2x1, 2, 1);
 long_mul_h!(c12_long_mul_2x2, 2, 2);
+long_mul_h!(c12_long_mul_1x3, 1, 3);
+long_mul_h!(c12_long_mul_3x1, 3, 1);
 
 /// large_mul(x, y): dispatch: one-limb y -> small_mul, otherwise x = long_mul(y, x)
 fn large_mul_case(lx: usize, ly: usize) {
